@@ -310,6 +310,23 @@ def plan(ctx):
     um, ub, ui, aliases = ce_units(ctx, src)
     ctx.functions_under_contract += um.functions + ub.functions + ui.functions
     groups += ce_groups(ctx, aliases)
+    # the alias table itself: the groups above verify each alias as the instantiation the table gives it; that this instantiation is
+    # the one the alias NAME promises (re_int64_t = reverse_endian<int64_t>, le_float = little_endian<float, uint32_t> ...) is a static
+    # fact of the header, reported like an obligation
+    wrong = []
+    for name, cls, ex, st in aliases:
+        want_cls = {'be': 'big_endian', 'le': 'little_endian', 're': 'reverse_endian'}.get(name.split('_', 1)[0])
+        want_ex = name.split('_', 1)[1] if '_' in name else ''
+        want_st = {'float': 'uint32_t', 'double': 'uint64_t'}.get(want_ex, '')
+        if cls != want_cls or ex != want_ex or (st or '') != want_st:
+            wrong.append('%s = %s<%s%s>' % (name, cls, ex, ', ' + st if st else ''))
+    ua = Unit(ctx, 'alias_names')
+    ua.raw('#define C03_ALIASES_ARE_WHAT_THEIR_NAMES_SAY %d\n#define C03_ALIAS_FINDING "%s"' % (0 if wrong else 1, '; '.join(wrong)[:400]))
+    ua.write(suffix='.h', scan=False)
+    groups.append(Group(name='Encoding.aliases[static]', harness='harness/C03/aliases.c', entry='h_aliases', kind='loop-free', min_post=1,
+                        function='the 24 using-declarations be_/le_/re_<type> of src/Encoding.hh',
+                        clause_note='alias name = byte-order class + exposed type (float/double stored as uint32_t/uint64_t)',
+                        replay=Replay(driver='C03/ce.cc', sources=[], mode='alias_names')))
     if ctx.tier == 'thorough':
         be = []
         for g in groups:
